@@ -163,6 +163,17 @@ Proof.
   apply bind_not_OOB; [apply walk_up_not_OOB with N; [assumption | lia] | intros; discriminate].
 Qed.
 
+Lemma guard_implies_in_bounds_tree_depth fuel parent N x :
+  parents_ok parent N -> Tree_depth fuel parent N x <> OOB.
+Proof.
+  intro P. unfold Tree_depth. caseb E; [discriminate|].
+  unfold tsk_tree_get_depth, tsk_tree_check_node. caseb E0; [discriminate|].
+  apply orb_false_iff in E0 as [E1 E2]. caseb E3; [discriminate|].
+  destruct (get_in parent (parse_I_as_int x)) as [p Hp]; [destruct P; lia|]. rewrite Hp. simpl.
+  apply bind_not_OOB; [|intros; discriminate].
+  apply walk_up_not_OOB with N; [assumption | eapply parents_ok_get; eauto].
+Qed.
+
 Lemma guard_implies_in_bounds_depth fuel parent N u :
   parents_ok parent N -> tsk_tree_get_depth fuel parent N u <> OOB.
 Proof.
@@ -441,12 +452,23 @@ Proof.
   destruct (get_in col j) as [c Hc]; [lia|]. rewrite Hc. simpl. apply IH; lia.
 Qed.
 
-Lemma guard_implies_in_bounds_site_set_columns_repaired position so mo :
-  site_table_set_columns true position so mo <> OOB.
+Lemma read_offset_checked so n sl :
+  0 <= n -> read_offset true n so sl <> OOB /\ (forall r, read_offset true n so sl = Ok r -> r = n /\ zlen so = n + 1).
 Proof.
-  unfold site_table_set_columns, read_column, read_offset. simpl.
-  caseb E; [|discriminate]. simpl. caseb E1; [|discriminate]. simpl.
-  apply Z.eqb_eq in E. apply Z.eqb_eq in E1. pose proof (zlen_nonneg position).
+  intro H. unfold read_offset. destruct (zlen so =? n + 1) eqn:E; simpl.
+  - apply Z.eqb_eq in E. destruct (get_in so n) as [l Hl]; [lia|]. rewrite Hl. simpl.
+    destruct (l =? sl); (split; [discriminate|]); intros r Hr; inversion Hr; subst; split; lia.
+  - split; [discriminate | intros; discriminate].
+Qed.
+
+Lemma guard_implies_in_bounds_site_set_columns_repaired position so mo sl ml :
+  site_table_set_columns true position so mo sl ml <> OOB.
+Proof.
+  unfold site_table_set_columns, read_column. simpl. pose proof (zlen_nonneg position) as NN.
+  destruct (read_offset_checked so (zlen position) sl NN) as [A1 A2].
+  apply bind_not_OOB; [exact A1|]. intros n1 H1. apply A2 in H1 as [-> E].
+  destruct (read_offset_checked mo (zlen position) ml NN) as [B1 B2].
+  apply bind_not_OOB; [exact B1|]. intros n2 H2. apply B2 in H2 as [-> E1].
   apply bind_not_OOB; [apply read_prefix_not_OOB; lia|]. intros _ _.
   apply bind_not_OOB; [apply read_prefix_not_OOB; lia|]. intros _ _.
   apply bind_not_OOB; [apply read_prefix_not_OOB; lia|]. intros; discriminate.
@@ -454,8 +476,8 @@ Qed.
 
 (* finding C09-N6 *)
 Lemma site_set_columns_metadata_offset_refuted :
-  exists position so mo, site_table_set_columns false position so mo = OOB.
-Proof. exists [5], [0; 1], [0; 0; 0]. vm_compute. reflexivity. Qed.
+  exists position so mo sl ml, site_table_set_columns false position so mo sl ml = OOB.
+Proof. exists [5], [0; 1], [0; 0; 0], 1, 0. vm_compute. reflexivity. Qed.
 
 Lemma guard_implies_in_bounds_two_branch_rows_repaired rows :
   two_branch_row_span true rows <> OOB.
@@ -579,6 +601,7 @@ Proof.
     apply andb_true_iff in E1 as [E2 E3].
     destruct (get_in (alloc HARTIGAN_MAX_ALLELES 0) allele) as [a Ha]; [rewrite zlen_alloc; lia|].
     rewrite Ha. discriminate. }
+  destruct (forallb _ _); [split; [discriminate | intros; discriminate]|].
   destruct anc as [a|].
   - caseb E1; [split; [discriminate | intros; discriminate]|]. apply orb_false_iff in E1 as [E2 E3].
     split; [discriminate|]. intros na Hna. inversion Hna; subst.
@@ -614,9 +637,11 @@ Example ex_keep_rows : table_keep_rows true [1; 0] [5; 6] 2 = Ok 1.
 Proof. reflexivity. Qed.
 Example ex_union : is_ok (table_collection_union true 2 2 [0; 0] [-1; 1]) = true.
 Proof. reflexivity. Qed.
-Example ex_site_cols : site_table_set_columns true [5; 6] [0; 1; 2] [0; 0; 0] = Ok 2.
+Example ex_site_cols : site_table_set_columns true [5; 6] [0; 1; 2] [0; 0; 0] 2 0 = Ok 2.
 Proof. reflexivity. Qed.
-Example ex_site_cols_truncates : site_table_set_columns false [5; 6] [0; 1; 2] [0; 0] = Ok 1.
+Example ex_site_cols_bad_encoding : site_table_set_columns true [5; 6] [0; 1; 2] [0; 0; 1] 2 0 = Err E_VALUE.
+Proof. reflexivity. Qed.
+Example ex_site_cols_truncates : site_table_set_columns false [5; 6] [0; 1; 2] [0; 0] 2 0 = Ok 1.
 Proof. reflexivity. Qed.
 Example ex_seek_finite : tree_seek false 5 [0; 4; 10] 2 0 (Fin 7) = Ok 1.
 Proof. reflexivity. Qed.
